@@ -1334,7 +1334,11 @@ func (a *apiSim) c16() {
 			path = "/api/v1/chain/merkleroot?" + qs.Encode()
 		case 7:
 			route, method, path = "POST /webhook", "POST", "/api/v1/webhook"
-			body = bodies(`{"url":"http://example.invalid/hook","requiredAuth":{"type":"BEARER","token":"t","header":"Authorization"}}`)
+			// url values that net/url refuses to parse are client mistakes like any other (wave 9: a validation that
+			// dereferences the result of a failed url.Parse)
+			whURL := []string{"http://example.invalid/hook", "http://exa mple.invalid/hook", "http://[::1/hook", "http://example.invalid/%zz",
+				"http://example.invalid:port/x", "://", "http://example.invalid/\u0000", "%", "http://user:pa ss@example.invalid/"}[t.Draw(9, "wh-body-url")]
+			body = bodies(`{"url":"` + whURL + `","requiredAuth":{"type":"BEARER","token":"t","header":"Authorization"}}`)
 		case 8:
 			route, method = []string{"GET /webhook", "DELETE /webhook"}[t.Draw(2, "wh-m")], ""
 			method = strings.Fields(route)[0]
